@@ -335,6 +335,53 @@ R"(
         type);
 }
 
+// Escapes `text` so that it can be pasted between the quotes of a C++ string or
+// character literal and denotes the same characters: quotes, backslash, `?`
+// (no trigraphs before C++17) and control characters.
+inline std::string escape_literal(const std::string_view text)
+{
+    std::string res;
+    res.reserve(text.size());
+    for(const char ch : text)
+    {
+        switch(ch)
+        {
+        case '"':
+            res += "\\\"";
+            break;
+        case '\'':
+            res += "\\'";
+            break;
+        case '\\':
+            res += "\\\\";
+            break;
+        case '?':
+            res += "\\?";
+            break;
+        case '\n':
+            res += "\\n";
+            break;
+        case '\r':
+            res += "\\r";
+            break;
+        case '\t':
+            res += "\\t";
+            break;
+        default:
+            if(static_cast<unsigned char>(ch) < 0x20)
+            {
+                // three octal digits: a following digit is not absorbed
+                res += fmt::format("\\{:03o}", static_cast<unsigned char>(ch));
+            }
+            else
+            {
+                res += ch;
+            }
+        }
+    }
+    return res;
+}
+
 inline std::string make_string_constant(
     const std::string& const_value,
     const length_t type_length,
@@ -346,7 +393,7 @@ inline std::string make_string_constant(
     }
 
     std::string value;
-    value.append("\"").append(const_value);
+    value.append("\"").append(escape_literal(const_value));
     // add padding if necessary
     const auto padding_length = type_length - const_value.size();
     for(std::size_t i = 0; i != padding_length; i++)
@@ -371,7 +418,7 @@ inline std::string make_char_constant(
             constant_value, type_length, location);
     }
 
-    return fmt::format("'{}'", constant_value);
+    return fmt::format("'{}'", escape_literal(constant_value));
 }
 
 inline std::string numeric_literal_to_value(
